@@ -63,34 +63,45 @@ COPS = [("eq", "=="), ("ne", "!="), ("lt", "<"), ("ge", ">="), ("gt", ">"), ("le
 
 
 def struct_program(rng):
-    """a random program of the stage-2 fragment: (C source, prefix tokens for the Lean port)"""
+    """a random program of the stage-2/3 fragment: (C source, prefix tokens for the Lean port)"""
     names = ["a", "b", "c", "d"]
+    use_regs = rng.random() < 0.6
 
-    def atom(allow_const=True, nonzero=False):
-        if allow_const and rng.random() < 0.4:
+    def atom(allow_const=True, nonzero=False, allow_reg=True):
+        if allow_const and rng.random() < 0.35:
             n = rng.choice(([] if nonzero else [0, 0]) + [1, 3, 7, 127, 128, 255])
             return "c%d" % n, str(n), True, n
+        if use_regs and allow_reg and rng.random() < 0.3:
+            r_ = rng.choice("XY")
+            return "r" + r_, r_, False, None
         v = rng.choice(names)
         return "v" + v, v, False, None
 
+    def lvalue():
+        if use_regs and rng.random() < 0.3:
+            r_ = rng.choice("XY")
+            return "r" + r_, r_
+        v = rng.choice(names)
+        return "v" + v, v
+
     def flat():
         k = rng.random()
-        v = rng.choice(names)
+        lt, ls = lvalue()
         if k < 0.3:
             t, s_, _, _ = atom()
-            return "asg:%s:%s" % (v, t), "%s = %s;" % (v, s_)
+            return "asg:%s:%s" % (lt, t), "%s = %s;" % (ls, s_)
         if k < 0.55:
             o = rng.choice(OPS)
             t1, s1, c1, _ = atom()
             t2, s2, c2, _ = atom(allow_const=not c1)
-            return "bin:%s:%s:%s:%s" % (v, o[0], t1, t2), "%s = %s %s %s;" % (v, s1, o[1], s2)
+            return "bin:%s:%s:%s:%s" % (lt, o[0], t1, t2), "%s = %s %s %s;" % (ls, s1, o[1], s2)
         if k < 0.7:
             o = rng.choice(OPS)
             t, s_, _, _ = atom()
-            return "oas:%s:%s:%s" % (v, o[0], t), "%s %s= %s;" % (v, o[1], s_)
+            return "oas:%s:%s:%s" % (lt, o[0], t), "%s %s= %s;" % (ls, o[1], s_)
         if k < 0.85:
-            return "inc:" + v, rng.choice(["%s++;", "++%s;"]) % v
-        return "dec:" + v, rng.choice(["%s--;", "--%s;"]) % v
+            return "inc:" + lt, rng.choice(["%s++;", "++%s;"]) % ls
+        return "dec:" + lt, rng.choice(["%s--;", "--%s;"]) % ls
 
     def cond(depth=0):
         k = rng.random()
@@ -105,15 +116,15 @@ def struct_program(rng):
             return ["not"] + t1, "!(%s)" % s1
         k = rng.random()
         if k < 0.2:
-            v = rng.choice(names)
-            return ["t:" + v], v
+            lt, ls = lvalue()
+            return ["t:" + lt], ls
         if k < 0.35:
-            v = rng.choice(names)
-            return ["nt:" + v], "!" + v
+            lt, ls = lvalue()
+            return ["nt:" + lt], "!" + ls
         o = rng.choice(COPS)
         ordered = o[0] not in ("eq", "ne")
         t1, s1, c1, n1 = atom(nonzero=ordered)
-        t2, s2, c2, n2 = atom(allow_const=not c1, nonzero=ordered)
+        t2, s2, c2, n2 = atom(allow_const=not c1, nonzero=ordered, allow_reg=not t1.startswith("r"))
         return ["cmp:%s:%s:%s" % (o[0], t1, t2)], "%s %s %s" % (s1, o[1], s2)
 
     def stmt(depth):
@@ -134,35 +145,35 @@ def struct_program(rng):
             ct, cs = cond(); bt, bs = stmt(depth + 1); et, es = stmt(depth + 1)
             return ["ife"] + ct + bt + et, "if (%s) %s else %s" % (cs, brace(bs), brace(es))
         counting = rng.random() < 0.6          # loops that count, so that most of them terminate
-        v = rng.choice(names)
+        vt, v = lvalue()
         if k < 0.89:
             ct, cs = cond(); bt, bs = stmt(depth + 1)
             if counting:
-                ct, cs = rng.choice([(["t:" + v], v), (["cmp:ne:v%s:c0" % v], "%s != 0" % v), (["cmp:ne:c0:v%s" % v], "0 != %s" % v),
-                                     (["and", "t:" + v, "cmp:ne:v%s:c200" % v], "(%s && %s != 200)" % (v, v))])
-                bt, bs = ["{"] + bt + ["dec:" + v, "}"], "{ %s %s--; }" % (bs, v)
+                ct, cs = rng.choice([(["t:" + vt], v), (["cmp:ne:%s:c0" % vt], "%s != 0" % v), (["cmp:ne:c0:%s" % vt], "0 != %s" % v),
+                                     (["and", "t:" + vt, "cmp:ne:%s:c200" % vt], "(%s && %s != 200)" % (v, v))])
+                bt, bs = ["{"] + bt + ["dec:" + vt, "}"], "{ %s %s--; }" % (bs, v)
             return ["wh"] + ct + bt, "while (%s) %s" % (cs, brace(bs))
         if k < 0.95:
             ct, cs = cond(); bt, bs = stmt(depth + 1)
             if counting:
                 n = rng.randint(1, 6)
-                ct, cs = rng.choice([(["cmp:lt:v%s:c%d" % (v, n)], "%s < %d" % (v, n)), (["cmp:ne:v%s:c%d" % (v, n)], "%s != %d" % (v, n)),
-                                     (["cmp:le:v%s:c%d" % (v, n)], "%s <= %d" % (v, n)), (["cmp:gt:c%d:v%s" % (n, v)], "%d > %s" % (n, v)),
-                                     (["not", "cmp:ge:v%s:c%d" % (v, n)], "!(%s >= %d)" % (v, n))])
-                bt, bs = ["{"] + bt + ["inc:" + v, "}"], "{ %s %s++; }" % (bs, v)
+                ct, cs = rng.choice([(["cmp:lt:%s:c%d" % (vt, n)], "%s < %d" % (v, n)), (["cmp:ne:%s:c%d" % (vt, n)], "%s != %d" % (v, n)),
+                                     (["cmp:le:%s:c%d" % (vt, n)], "%s <= %d" % (v, n)), (["cmp:gt:c%d:%s" % (n, vt)], "%d > %s" % (n, v)),
+                                     (["not", "cmp:ge:%s:c%d" % (vt, n)], "!(%s >= %d)" % (v, n))])
+                bt, bs = ["{"] + bt + ["inc:" + vt, "}"], "{ %s %s++; }" % (bs, v)
             return ["do"] + bt + ct, "do %s while (%s);" % (brace(bs), cs)
         it, is_ = flat(); ut, us = flat(); ct, cs = cond(); bt, bs = stmt(depth + 1)
         if counting:
             n = rng.randint(1, 6)
             if rng.random() < 0.5:
-                it, is_ = "asg:%s:c0" % v, "%s = 0;" % v
-                ct, cs = rng.choice([(["cmp:lt:v%s:c%d" % (v, n)], "%s < %d" % (v, n)), (["cmp:ne:v%s:c%d" % (v, n)], "%s != %d" % (v, n)),
-                                     (["cmp:ge:c%d:v%s" % (n, v)], "%d >= %s" % (n, v))])
-                ut, us = "inc:" + v, v + "++"
+                it, is_ = "asg:%s:c0" % vt, "%s = 0;" % v
+                ct, cs = rng.choice([(["cmp:lt:%s:c%d" % (vt, n)], "%s < %d" % (v, n)), (["cmp:ne:%s:c%d" % (vt, n)], "%s != %d" % (v, n)),
+                                     (["cmp:ge:c%d:%s" % (n, vt)], "%d >= %s" % (n, v))])
+                ut, us = "inc:" + vt, v + "++"
             else:
-                it, is_ = "asg:%s:c%d" % (v, n), "%s = %d;" % (v, n)
-                ct, cs = rng.choice([(["t:" + v], v), (["cmp:ne:v%s:c0" % v], "%s != 0" % v), (["cmp:ge:v%s:c1" % v], "%s >= 1" % v)])
-                ut, us = "dec:" + v, v + "--"
+                it, is_ = "asg:%s:c%d" % (vt, n), "%s = %d;" % (v, n)
+                ct, cs = rng.choice([(["t:" + vt], v), (["cmp:ne:%s:c0" % vt], "%s != 0" % v), (["cmp:ge:%s:c1" % vt], "%s >= 1" % v)])
+                ut, us = "dec:" + vt, v + "--"
         return ["for", it] + ct + [ut] + bt, "for (%s %s; %s) %s" % (is_, cs, us.rstrip(";"), brace(bs))
 
     def brace(s_):
@@ -230,20 +241,21 @@ def run(chk):
                 if not okl:
                     chk.count("struct_unloadable"); continue
                 for _ in range(3):
-                    vals = {n: rng.choice([0, 1, 2, 3, 5, 127, 128, 254, 255, rng.randrange(256)]) for n in "abcd"}
+                    vals = {n: rng.choice([0, 1, 2, 3, 5, 127, 128, 254, 255, rng.randrange(256)]) for n in "abcdXY"}
                     exp = m.req("semstruct 3000 / %s / %s" % (" ".join("%s=%d" % kv for kv in sorted(vals.items())), " ".join(toks)))
                     if not exp.startswith("ok "):
                         chk.count("struct_sem_" + exp.split(" ")[0]); continue
                     want = {t.split("=")[0]: int(t.split("=")[1]) for t in exp[3:].split(" ")}
                     mem = dict(init)
                     for n, v in vals.items():
-                        mem[regions[n][0]] = v
-                    res = prog.run(m, "c01s", mem=mem, a=rng.randrange(256), x=rng.randrange(256), y=rng.randrange(256), fuel=400000,
+                        if n in regions:
+                            mem[regions[n][0]] = v
+                    res = prog.run(m, "c01s", mem=mem, a=rng.randrange(256), x=vals["X"], y=vals["Y"], fuel=400000,
                                    watch=[(regions[n][0], 1) for n in "abcd"])
                     if res["stop"] == "fuel":
                         chk.count("struct_run_out_of_steps"); continue      # a long run, not a wrong one: not judged
                     chk.count("struct_executions")
-                    got = {n: res["mem"][k] for k, n in enumerate("abcd")} if res["stop"] == "done" else {"stop": res["stop"]}
+                    got = dict({n: res["mem"][k] for k, n in enumerate("abcd")}, X=res["X"], Y=res["Y"]) if res["stop"] == "done" else {"stop": res["stop"]}
                     if got != want:
                         chk.fail("c01-struct-wrong-value", "compiled code (-O%d) of a stage-2 program ends with %s, the source prescribes %s" % (level, got, want),
                                  {"source": src, "level": level, "initial": vals, "got": got, "expect": want})
